@@ -6,7 +6,7 @@ import (
 	"github.com/EliCDavis/polyform/generator/endpoint"
 )
 
-func graphEndpoint(app *App) endpoint.Handler {
+func graphEndpoint(app *App, saver *GraphSaver) endpoint.Handler {
 	return endpoint.Handler{
 		Methods: map[string]endpoint.Method{
 			http.MethodGet: endpoint.ResponseMethod[[]byte]{
@@ -23,6 +23,7 @@ func graphEndpoint(app *App) endpoint.Handler {
 					if err != nil {
 						return err
 					}
+					saver.Save()
 					return nil
 				},
 			},
